@@ -2292,10 +2292,13 @@ impl<'a, E: quiver_core::effects::Effect> Compiler<'a, E> {
         // Process each branch jump
         for (jump_addr, next_branch_idx, needs_cleanup) in next_branch_jumps {
             // Determine target: next branch start, on_no_match handler, or final end
+            // A failing last branch leaves the block through the parameter clear, like every
+            // other exit: jumping past it would leak the block's parameter local and shift the
+            // slots of whatever the enclosing sequence binds next.
             let target_addr = if next_branch_idx < branch_starts.len() {
                 Some(branch_starts[next_branch_idx])
             } else {
-                on_no_match
+                on_no_match.or(Some(param_clear_addr))
             };
 
             if needs_cleanup {
